@@ -330,9 +330,46 @@ def c18(ctx):
                        assumptions=TUI_ASSUME)
 
 
-PROPS = {"C17": c17, "C18": c18, "C20": c20, "C04": c04, "C14": c14, "C12": c12, "C13": c13, "C02": c02, "C11": c11, "C05": c05, "C15": c15, "C19": c19, "C07": c07, "C01": c01, "C03": c03, "C06": c06, "C08": c08, "C09": c09, "C10": c10}
+CFGM = "mon/MonCfg.tla"
 
-MONITOR_OF = {"C17": (TUI, "MonTui_C17.cfg"), "C18": (TUI, "MonTui_C18.cfg"), "C20": ("mon/MonSnap.tla", "MonSnap.cfg"), "C04": (LOOP, "MonLoop_C04.cfg"), "C14": (LOOP, "MonLoop_C14.cfg"), "C12": (PKT, "MonPacket_C12.cfg"), "C13": (PKT, "MonPacket_C13.cfg"), "C02": (LOOP, "MonLoop_C02.cfg"), "C11": (LOOP, "MonLoop_C11.cfg"), "C05": (STATE, "MonState_C05.cfg"), "C15": (STATE, "MonState_C15.cfg"), "C19": (STATE, "MonState_C19.cfg"), "C07": (LOOP, "MonLoop_C07.cfg"), "C01": (LOOP, "MonLoop_C01.cfg"), "C03": (LOOP, "MonLoop_C03.cfg"), "C06": (LOOP, "MonLoop_C06.cfg"),
+
+def c16(ctx):
+    q = ctx.quick()
+    ctx.model("mc/MC_Config.tla", "MC_Config.cfg", workers=8)
+    # precedence: every option x layer state x values over random backgrounds, through the real Args / ConfigFile / build_config
+    ctx.sim("layer", 6 if q else 60, CFGM, "MonCfg_C16.cfg", package="vt", subcmd="cfg", batch=3 if q else 10)
+    # builder alone (library users): boundary values of every builder parameter, whatever build() accepts is run
+    ctx.sim("cfgrun", 1500 if q else 30000, CFGM, "MonCfg_C16.cfg", seed_off=1, batch=500, extra_args=["--snap", "none"],
+            conf=(CFGM, "MonCfg_conf.cfg"))
+    # command line, then builder: random CLI + file configurations incl. boundary and invalid values; the accepted ones are
+    # projected onto the builder as start_tracer does and run over the simulated network
+    import subprocess
+    d = os.path.join(WORK, "runs", "C16-cligen")
+    os.makedirs(d, exist_ok=True)
+    scen = os.path.join(d, "accepted.scenarios.jsonl")
+    n = 1500 if q else 30000
+    r = subprocess.run([ctx.bin("vt"), "cfg", "--family", "clirun", "--seed", str(ctx.seed * 1000 + 7), "--n", str(n),
+                        "--out", os.path.join(d, "cli.ndjson"), "--stats", os.path.join(d, "cli.stats.json"), "--emit-scenarios", scen],
+                       stdout=subprocess.PIPE, stderr=subprocess.STDOUT, text=True, timeout=3000)
+    if r.returncode != 0:
+        raise ToolError("vt cfg clirun failed: %s" % r.stdout[-2000:])
+    acc = sum(1 for _ in open(scen))
+    ctx.cov["cli_configurations_tried"] = n
+    ctx.cov["cli_configurations_accepted_and_run"] = acc
+    log("gen   %d random CLI+file configurations, %d accepted by the command-line layer -> run over the simulated network" % (n, acc))
+    ctx.sim("clirun", acc, CFGM, "MonCfg_C16.cfg", seed_off=2, scenarios_file=scen, extra_args=["--snap", "none"], conf=(CFGM, "MonCfg_conf.cfg"))
+    ctx.write_evidence("model_checking", "model: Config.tla - over the boundary values of every builder parameter (1.1 million configurations) whatever passes Builder::build and the start-up checks lies in the domain of the core, and the layering operator is a function of the option's own three inputs; "
+                       "implementation: distinct (option, layer state, values, background) cases through the real Args / ConfigFile / build_config whose effective value TLC compares with Layer(cli, file, documented default); distinct builder-parameter combinations and distinct accepted command-line configurations executed for 2-3 rounds over the simulated network",
+                       assumptions=["the documented default of an option is the [default: X] of the --help text generated from the real Args (what `trip --help` prints; pinned by the repository's snapshot tests), falling back to trippy-config-sample.toml where the help states none; geoip-mmdb-file has no documented default",
+                                    "the configuration file layer is the real ConfigFile deserialised from TOML text; locating and reading the file on disk is not exercised",
+                                    "target-port / source-port are exercised under tcp, where their documented defaults (80 / auto) apply; under udp the default port direction is a fixed source port taken from the process id",
+                                    "accepted command-line configurations are projected onto the tracer builder by the harness field by field as trippy-tui's start_tracer does (that function is private and spawns threads), then run for at most 3 rounds",
+                                    "the privilege check is exercised with has_privileges = true, needs_privileges = false"] + LOOP_ASSUME)
+
+
+PROPS = {"C16": c16, "C17": c17, "C18": c18, "C20": c20, "C04": c04, "C14": c14, "C12": c12, "C13": c13, "C02": c02, "C11": c11, "C05": c05, "C15": c15, "C19": c19, "C07": c07, "C01": c01, "C03": c03, "C06": c06, "C08": c08, "C09": c09, "C10": c10}
+
+MONITOR_OF = {"C16": (CFGM, "MonCfg_C16.cfg"), "C17": (TUI, "MonTui_C17.cfg"), "C18": (TUI, "MonTui_C18.cfg"), "C20": ("mon/MonSnap.tla", "MonSnap.cfg"), "C04": (LOOP, "MonLoop_C04.cfg"), "C14": (LOOP, "MonLoop_C14.cfg"), "C12": (PKT, "MonPacket_C12.cfg"), "C13": (PKT, "MonPacket_C13.cfg"), "C02": (LOOP, "MonLoop_C02.cfg"), "C11": (LOOP, "MonLoop_C11.cfg"), "C05": (STATE, "MonState_C05.cfg"), "C15": (STATE, "MonState_C15.cfg"), "C19": (STATE, "MonState_C19.cfg"), "C07": (LOOP, "MonLoop_C07.cfg"), "C01": (LOOP, "MonLoop_C01.cfg"), "C03": (LOOP, "MonLoop_C03.cfg"), "C06": (LOOP, "MonLoop_C06.cfg"),
               "C08": (LOOP, "MonLoop_C08.cfg"), "C09": (LOOP, "MonLoop_C09.cfg"), "C10": (LOOP, "MonLoop_C10.cfg")}
 
 
